@@ -122,6 +122,7 @@ package client
 //@   nopanic[C14.nopanic]
 //@   captures gone != nil && closable(gone)
 //@   atcall[C11.owner_signals_before_it_waits_for_the_registry_lock] client.(*RpcMultiplexer).unregisterHandler : ncalls("(*sync.Once).Do") == old(ncalls("(*sync.Once).Do")) + 1
+//@   atcall[C11.owner_takes_no_lock_before_it_signals C07.owner_takes_no_lock_before_it_signals] (*sync.Once).Do : ncalls("lock") == old(ncalls("lock"))
 //@   ensures[C14.teardown_unregisters] !(streamId in rm.handlers)
 
 // read closure: only this stream's channel, closed channel => error
